@@ -7,6 +7,7 @@ import Drive.Icu
 import Drive.Decode
 import Drive.Dma
 import Drive.Alu
+import Drive.Regs
 /-!
 Line-protocol driver for the executable model: one request per line on stdin, one response per
 line on stdout.  `<unit> <op> <hex args…>`.
@@ -21,6 +22,7 @@ structure St where
   apbpSys : ApbpSys := {}
   icu : Icu := {}
   dma : DmaSt := {}
+  regs : RegsSt := default
 
 def stepLine (st : St) (line : String) : St × String :=
   match (line.trimAscii.toString.splitOn " ").filter (· ≠ "") with
@@ -33,6 +35,7 @@ def stepLine (st : St) (line : String) : St × String :=
   | "dec" :: args => (st, decodeStep args)
   | "dma" :: args => let (d, out) := dmaStep st.dma args; ({ st with dma := d }, out)
   | "alu" :: args => (st, aluStep args)
+  | "regs" :: args => let (r, out) := regsStep st.regs args; ({ st with regs := r }, out)
   | [] => (st, "")
   | _ => (st, "bad-unit")
 
